@@ -14,7 +14,7 @@ import ast
 import z3
 
 from .vals import *
-from .types import *
+from .tys import *
 from .interp import Raise, EngineLimit, NORMAL, SRange, UNBOUND, stmt_text
 from . import contracts_rt as C
 
